@@ -302,6 +302,20 @@ class Desugar(ast.NodeTransformer):
                 return ast.copy_location(new, node)
         return node
 
+    def visit_Compare(self, node):
+        # "name" in o.__dict__  ->  hasattr(o, "name")        "name" not in o.__dict__  ->  not hasattr(o, "name")
+        # (presence of an attribute written as a dictionary test; for the classes of this package, which define no
+        # attribute of that name on a base class, the two coincide)
+        self.generic_visit(node)
+        if len(node.ops) == 1 and isinstance(node.ops[0], (ast.In, ast.NotIn)) and isinstance(node.left, ast.Constant) \
+                and isinstance(node.left.value, str) and node.left.value.isidentifier():
+            c = node.comparators[0]
+            if isinstance(c, ast.Attribute) and c.attr == "__dict__" and isinstance(c.value, ast.Name):
+                call = ast.Call(func=ast.Name(id="hasattr", ctx=ast.Load()), args=[c.value, node.left], keywords=[])
+                new = call if isinstance(node.ops[0], ast.In) else ast.UnaryOp(op=ast.Not(), operand=call)
+                return ast.fix_missing_locations(ast.copy_location(new, node))
+        return node
+
     def visit_AnnAssign(self, node):
         # x: T = e  ->  x = e   (a bare declaration `x: T` has no effect at run time)
         if node.value is None:
